@@ -58,6 +58,10 @@ def menu(names):
             m.append('not rule:%s and rule:%s' % (n, k))
         m.append('not rule:%s or (rule:%s and role:x)' % (n, n))
         m.append('not not rule:%s and (role:y or rule:%s)' % (n, names[0]))
+        # a leaf of ANOTHER kind with the same text after the colon ahead of
+        # the reference
+        m.append('role:%s or rule:%s' % (n, n))
+        m.append('is_admin:%s and rule:%s' % (n, n))
     return m
 
 
